@@ -34,12 +34,16 @@ ASSUMPTIONS = [
     'elsewhere; the client parser accepts proper Pong/Close frames as well)',
     'a client that starts a fragmented message finishes it (the remaining frames are read with blocking reads: see '
     'C12_blocked_receive_refuted and the corpus scenario stall-*)',
-    'peer addresses of streams waiting for admission are distinct from each other and from the table (see '
-    'C12_readmission_refuted); the same-port reconnect scripts wait for the old stream\'s removal window',
+    'a client that resets or half-closes its connection without a Close frame is only noticed through the heartbeat (a '
+    'read of 0 bytes is "nothing yet", and a write whose error is ignored can consume the reset): by design, stated in the '
+    'crate documentation; such a stream stays in the table until the heartbeat times out or its address is reused',
     'heartbeat decisions are replayed with the clock value bracketing the real comparison (before it for "not yet", after it '
     'for "due"), so the replay cannot disagree because of the time between two clock reads',
-    'timing-dependent expectations (a Close leads to a Disconnect, everything sent was drained) are only judged when the '
-    'scenario settled for at least 60 ms (heartbeat: timeout + 2 intervals + 150 ms) before the signal',
+    'progress expectations are phrased through the log\'s iteration timestamps, not through sleeps: a server-side send that '
+    'returned before the start of a completed iteration must have been drained by it; a Close frame / message written 50 ms '
+    'before the start of a completed iteration that had the stream in its table must have been received; a client that saw '
+    'the 101 response 100 ms before the start of a completed iteration must have been admitted. A failure of one of these is '
+    'only reported if it repeats in two re-runs of the same scenario (a stalled thread on a loaded machine does not repeat)',
 ]
 TRUSTED_EXTRA = ['hook H4 (humphrey-ws/src/verif_trace.rs + cfg(humphrey_verif) statements in async_app.rs) reports the '
                  'loop\'s events faithfully and in order; `keys()` and `values_mut()` of one unmodified HashMap iterate in the '
@@ -193,8 +197,9 @@ def parse(out):
     for c in lst(f.get('C', '-')):
         p = c.split(',')
         dl = lambda s: [] if s == '' else s.split('+')
-        conns.append({'client': int(p[0]), 'addr': p[1], 'end': p[2], 'eof': p[3][0] == '1', 'close': p[3][1] == '1',
-                      'garbage': p[3][2] == '1', 'sent': dl(p[4]), 'recv': dl(p[5])})
+        conns.append({'client': int(p[0]), 'addr': p[1], 'end': p[2], 'eof': p[3][0] == '1', 'reset': p[3][0] == '2',
+                      'close': p[3][1] == '1', 'garbage': p[3][2] == '1', 'sent': dl(p[4]), 'recv': dl(p[5]),
+                      't_open': int(p[6]), 't_last_write': int(p[7])})
     f['C'] = conns
     return f
 
@@ -205,8 +210,23 @@ def oracle(line, f, model):
     stats = {}
     a = line.split(' ')
     pool, hbs, csleep, settle = int(a[1]), a[3], int(a[5].split(':')[0]), int(a[6])
-    settled = settle >= 60 and csleep == 0
     H = f['H']
+    MS = 1000000
+    # starts of the iterations that ran to their end: (position in H, start ns); idle runs count with their last start
+    complete = []
+    cur_it = None
+    for k, e in enumerate(H):
+        if e[0] == 'it':
+            cur_it = (k, int(e[2]))
+        elif e[0] == 'end' and cur_it is not None:
+            complete.append(cur_it)
+            cur_it = None
+        elif e[0] == 'idle':
+            complete.append((k, int(e[2])))
+
+    def later_complete(pos, t):
+        """a completed iteration after log position pos that started at or after time t"""
+        return any(k > pos and st >= t for k, st in complete)
     if any(c['garbage'] for c in f['C']):
         bad.append(('client-garbage', 'a client read bytes that are not a WebSocket frame', True))
     # --- (A) conformance verdict
@@ -215,10 +235,9 @@ def oracle(line, f, model):
         return bad, stats
     m = dict(kv.split('=', 1) for kv in model.split(' ')[1:])
     if m['sessions'] != 'ok':
-        bad.append(('readmission' if m['offwf'] != '0' else 'sessions',
-                    'dispatch sequence violates the session discipline for ' + m['sessions'], True))
+        bad.append(('sessions', 'dispatch sequence violates the session discipline for ' + m['sessions'], True))
     elif m['offwf'] != '0':
-        bad.append(('off-wf', 'inputs outside the environment assumption (offwf=%s)' % m['offwf'], False))
+        bad.append(('off-wf', 'a broadcast did not visit exactly the model\'s table (offwf=%s)' % m['offwf'], False))
     # --- (B) shutdown
     if f['returned'] == 'never':
         bad.append(('stalled-receive' if m['stuck'] == 'true' else 'shutdown-hang',
@@ -283,13 +302,13 @@ def oracle(line, f, model):
     cur_b = None
     uni = None
     nrm = nb = 0
-    for e in H:
+    for hpos, e in enumerate(H):
         if e[0] == 'adm':
             if e[1] in table:
                 bad.append(('readmission', 'address %s admitted while already in the table' % e[1], True))
             else:
                 table.append(e[1])
-            life.setdefault(e[1], []).append({'w': [], 'r': [], 'closed': None, 'removed': False})
+            life.setdefault(e[1], []).append({'w': [], 'r': [], 'closed': None, 'removed': False, 'pos': hpos})
         elif e[0] == 'rm':
             nrm += 1
             if e[1] in table:
@@ -335,9 +354,11 @@ def oracle(line, f, model):
         bad.append(('drained-twice', 'an outgoing message was drained twice', True))
     if any(d not in sent for d in drained):
         bad.append(('drained-unknown', 'a drained message was never sent', True))
-    if settled and f['returned'] != 'never' and len(drained) != len(sent):
-        bad.append(('not-drained', '%d message(s) sent by handlers/external sender were never drained although the scenario '
-                    'settled for %d ms' % (len(sent) - len(drained), settle), True))
+    ds = set(drained)
+    late = [s_ for d, s_ in sent.items() if d not in ds and later_complete(-1, int(s_[5]))]
+    if late:
+        bad.append(('not-drained', '%d message(s) whose send returned before a completed iteration started were never '
+                    'drained, e.g. %s' % (len(late), late[0][:5]), True))
     for e in H:
         if e[0] == 'o' and e[1] == 'u' and sent.get(e[3], [0, 0, e[2]])[2] != e[2]:
             bad.append(('unicast-target', 'unicast drained for %s was sent to %s' % (e[2], sent[e[3]][2]), True))
@@ -352,11 +373,12 @@ def oracle(line, f, model):
         if lf is None:
             if c['recv']:
                 bad.append(('phantom-delivery', who + ' was never admitted but received data', True))
-            if settled and f['returned'] != 'never' and c['end'] in 'aqv':
-                bad.append(('never-admitted', who + ' completed the handshake but was never admitted', True))
+            if later_complete(-1, c['t_open'] + 100 * MS):
+                bad.append(('never-admitted', who + ' saw the 101 response 100 ms before a completed iteration started '
+                            'but was never admitted', True))
             continue
         # what it read = what the loop wrote to its address while it was in the table
-        if c['end'] == 'a' and c['eof'] and f['returned'] != 'never':
+        if c['end'] == 'a' and c['eof'] and f['returned'] != 'never':      # clean EOF: nothing was lost to a reset
             if c['recv'] != lf['w']:
                 bad.append(('delivery', who + ' read %d data frames, the loop wrote %d to it (or order differs)'
                             % (len(c['recv']), len(lf['w'])), True))
@@ -376,15 +398,40 @@ def oracle(line, f, model):
         elif lf['closed'] == 'ConnectionClosed' and c['end'] == 'q' and lf['r'] != c['sent']:
             bad.append(('receive-lost', who + ': Close frame processed but %d earlier message(s) never delivered'
                         % (len(c['sent']) - len(lf['r'])), True))
-        if settled and f['returned'] != 'never':
-            if c['end'] in 'qt' and not lf['removed']:
-                bad.append(('no-disconnect', who + ' closed/reset its connection, no removal although the scenario settled', True))
-            if c['end'] == 'v' and hbs != 'off' and not lf['removed']:
-                bad.append(('no-heartbeat-timeout', who + ' vanished, heartbeat on, no removal although the scenario settled', True))
-            if lf['r'] != c['sent'] and c['end'] in 'aqr':
-                bad.append(('receive-lost', who + ': %d message(s) sent were never received although the scenario settled'
-                            % (len(c['sent']) - len(lf['r'])), True))
+        if c['t_last_write'] and later_complete(lf['pos'], c['t_last_write'] + 50 * MS):
+            if c['end'] == 'q' and not lf['removed']:
+                bad.append(('no-disconnect', who + ' wrote a Close frame 50 ms before a completed iteration started, no '
+                            'removal', True))
+            if lf['r'] != c['sent'] and c['end'] in 'aqrv' and not lf['removed']:
+                bad.append(('receive-lost', who + ': %d message(s) written 50 ms before a completed iteration started were '
+                            'never received' % (len(c['sent']) - len(lf['r'])), True))
     return bad, stats
+
+
+PROGRESS = {'not-drained', 'no-disconnect', 'receive-lost', 'never-admitted'}
+
+
+def evaluate(ctx, lines, nproc, timeout):
+    """run the scenarios, replay their logs through the model, apply the oracle"""
+    im = run_parallel(lines, nproc, timeout)
+    parsed, mlines = [], []
+    for line, b in zip(lines, im):
+        if not b.startswith('ok '):
+            parsed.append(None)
+            mlines.append('c12_replay off cmx -')
+            continue
+        f = parse(b)
+        parsed.append(f)
+        mlines.append('c12_replay %s cmx %s' % (line.split(' ')[3], ';'.join(','.join(e) for e in f['H']) or '-'))
+    mo = ctx.model(mlines)
+    res = []
+    for line, b, f, mres in zip(lines, im, parsed, mo):
+        if f is None:
+            res.append((b, None, mres, None, {}))
+        else:
+            bad, stats = oracle(line, f, mres)
+            res.append((b, f, mres, bad, stats))
+    return res
 
 
 def run(ctx):
@@ -404,21 +451,27 @@ def run(ctx):
         ncorpus = len(lines)
         for _ in range(4000 if thorough else 40):
             lines.append(gen_scenario(rng, thorough))
-    im = run_parallel(lines, 12 if thorough else 10, 900 if thorough else 120)
-    parsed = []
-    mlines = []
-    for line, b in zip(lines, im):
-        if not b.startswith('ok '):
-            parsed.append(None)
-            mlines.append('c12_replay off cmx -')
-            continue
-        f = parse(b)
-        parsed.append(f)
-        mlines.append('c12_replay %s cmx %s' % (line.split(' ')[3], ';'.join(','.join(e) for e in f['H']) or '-'))
-    mo = ctx.model(mlines)
+    nproc, timeout = (12, 900) if thorough else (10, 120)
+    results = evaluate(ctx, lines, nproc, timeout)
     ctx.evaluations += len(lines)
+    # a progress expectation that failed is re-run twice: reported only if it fails every time
+    retry = [k for k, r in enumerate(results) if r[3] and all(b[0] in PROGRESS for b in r[3])]
+    cleared = 0
+    for _ in range(2):
+        if not retry:
+            break
+        again = evaluate(ctx, [lines[k] for k in retry], nproc, timeout)
+        still = []
+        for k, r in zip(retry, again):
+            if r[3] is not None and not any(b[0] in PROGRESS for b in r[3]):
+                results[k] = r            # the re-run stands for the scenario (it is judged in full below)
+                cleared += 1
+            else:
+                still.append(k)
+        retry = still
+    ctx.count('progress-expectation-cleared-by-rerun', cleared)
     tot = {}
-    for line, b, f, mres in zip(lines, im, parsed, mo):
+    for line, (b, f, mres, bad, stats) in zip(lines, results):
         case = {'line': line}
         a = line.split(' ')
         ctx.count('pool:' + a[1])
@@ -431,15 +484,17 @@ def run(ctx):
                        what='scenario failed to run: ' + b[:100])
             continue
         ctx.traces += 1
-        bad, stats = oracle(line, f, mres)
         for k, v in stats.items():
             tot[k] = tot.get(k, 0) + v
         ctx.count('model:' + mres.split(' ')[0].split(':')[0])
         for step in '.'.join(a[8:]).split('.'):
-            if step and step[0] in 'TBFGMPQRXVC':
+            if step and step[0] in 'TBFGMPQRXVCHh':
                 ctx.count('step:' + step[0] + ('s' if step == 'Cs' else ''))
         if stats.get('removals', 0) + stats.get('broadcasts', 0) > 0 and len(a) - 8 >= 2:
             ctx.mark_nontrivial(line)
+        if bad and os.environ.get('C12_DEBUG_DIR'):
+            with open(os.path.join(os.environ['C12_DEBUG_DIR'], 'bad-%d.txt' % ctx.traces), 'w') as fh:
+                fh.write(line + '\n' + b + '\n' + mres + '\n' + repr(bad) + '\n')
         seen = set()
         for cls, what, failing in bad:
             if cls in seen:
@@ -449,6 +504,6 @@ def run(ctx):
                        'C12 oracle', cls=cls, failing_input=failing, what=what)
     ctx.extra['handler_order_stats_multi_thread'] = tot
     for k in (0, len(lines) // 2, len(lines) - 1):
-        if 0 <= k < len(lines) and parsed[k] is not None:
-            ctx.sample({'scenario': lines[k], 'model': mo[k], 'returned_ms': parsed[k]['returned'],
-                        'hook_events': len(parsed[k]['H']), 'handler_events': len(parsed[k]['E'])})
+        if 0 <= k < len(lines) and results[k][1] is not None:
+            ctx.sample({'scenario': lines[k], 'model': results[k][2], 'returned_ms': results[k][1]['returned'],
+                        'hook_events': len(results[k][1]['H']), 'handler_events': len(results[k][1]['E'])})
